@@ -124,6 +124,7 @@ def extract_default(
             ch == "."
             and (idx == (sub_l_len - 1) or not (sub_l[idx + 1]).isdigit())
             and not sum(par.values())
+            and sub_l.count("```", 0, idx) & 1 == 0  # not inside a ```code``` default
         ):
             break
         elif ch in par:
